@@ -227,12 +227,13 @@ def langOfExt (ext : Str) : Option Str :=
   else if ext = ".lua".toList then some "lua".toList
   else none
 
-/-- `ast.listify` on a string value of a declaration-level `splicer:` entry. -/
+/-- `ast.listify` on a string value of a declaration-level `splicer:` entry:
+    its lines; a final newline does not add a blank line.  (Before the `fix:`
+    commit in /repo, `value[-1]` raised IndexError on the empty string; the
+    `Res` type is kept so a reintroduced crash can be modelled.) -/
 def listifyStr (v : Str) : Res (List Str) :=
-  if v.isEmpty then .crash "IndexError"     -- value[-1] on ""
-  else
-    let parts := splitOn '\n' v
-    .ok (if v.getLast? = some '\n' then parts.dropLast else parts)
+  let parts := splitOn '\n' v
+  .ok (if v.getLast? = some '\n' then parts.dropLast else parts)
 
 /-! ### the splicer stack of a wrapper -/
 
